@@ -171,6 +171,8 @@ pub struct Fab {
     pub stakes: Vec<(TxHash, StakeDoc)>,
     /// dosc_speed recorded in the fabricated parent header
     pub parent_dosc_speed: u128,
+    /// further (fabricated) ancestors to put into the history tree
+    pub extra_history: Vec<Header>,
 }
 
 impl Fab {
@@ -185,6 +187,7 @@ impl Fab {
             pools: vec![],
             stakes: vec![],
             parent_dosc_speed: MICRO,
+            extra_history: vec![],
         }
     }
     /// Builds a sealed state at `height` through the public API only: the three SMTs are written
@@ -221,6 +224,9 @@ impl Fab {
                 stakes_hash: HashVal([4u8; 32]),
             };
             history.insert(BlockHeight(self.height - 1), parent);
+        }
+        for h in &self.extra_history {
+            history.insert(h.height, *h);
         }
         let stakes = StakeSet::new(self.stakes.iter().cloned());
         let header = Header {
